@@ -298,6 +298,13 @@ def inst_view_py2(co):
         out.append(
             [off, op, opcode.opname[op], arg, kind, av, off in labels, linestarts.get(off)]
         )
+    # 2.7's dis.findlabels ignores EXTENDED_ARG (the interpreter and dis.disassemble's operand
+    # column do not): where they differ, the jump targets decoded above are the reference.
+    real_labels = set(r[5] for r in out if r[4] == "j")
+    check_marks = real_labels == labels
+    if not check_marks:
+        for r in out:
+            r[6] = r[0] in real_labels
 
     # cross-check with the printed listing
     global _DIS27_RE
@@ -329,7 +336,7 @@ def inst_view_py2(co):
             or name != rec[2]
             or (arg is not None and int(arg) != rec[3])
             or (arg is None) != (rec[3] is None)
-            or bool(jt) != rec[6]
+            or (check_marks and bool(jt) != rec[6])
             or (int(line) if line else None) != rec[7]
         ):
             ok = False
@@ -348,6 +355,11 @@ def inst_view(co):
 def labels_view(co):
     import dis
 
+    if PY2:
+        # see inst_view_py2: dis.findlabels of 2.7 drops EXTENDED_ARG
+        v = inst_view_py2(co)
+        if v is not None:
+            return sorted(set(r[5] for r in v if r[4] == "j"))
     return sorted(set(dis.findlabels(co.co_code)))
 
 
